@@ -3,7 +3,7 @@
    Mirrors, line by line:
    - [Automerge::transaction_args] (automerge.rs): actor, seq, deps, start_op of the change a
      transaction will create, isolated ([Some heads]) or not ([None]);
-   - [Automerge::isolate_actor] / [get_isolated_actor_index] (automerge.rs) and
+   - [Automerge::isolate_actor] / [get_isolated_actor_index] (automerge.rs, after fd4a60d8b) and
      [ActorId::with_concurrency] (types.rs): the actor an isolated transaction writes as;
    - [ChangeGraph::{max_op, max_op_for_actor, seq_for_actor, get_hash_for_actor_seq, clock_at,
      calculate_clock, seq_clock_for_heads, get_build_indexes}] (change_graph.rs);
@@ -62,8 +62,10 @@ Definition with_concurrency (a : actor) (level : N) : actor :=
 Definition level_actor (a : actor) (i : N) : actor :=
   if i =? 0 then a else with_concurrency a i.
 
-(* [isolate_actor]: the first level whose actor has no change, or whose LATEST op
-   [OpId(max_op_for_actor, actor)] is covered by the clock of the heads.  The Rust loop is
+(* [isolate_actor] (as of the repair fd4a60d8b): the first level whose actor has no change, or
+   whose LATEST change is an ancestor of the heads: [seq_for_actor(actor) == 0 ||
+   seq_clock_for_heads(heads)[actor] == Some(seq_for_actor(actor))] (a clock without an entry
+   reads 0 here, and 0 is never the seq of an actor that has changes).  The Rust loop is
    unbounded ([for i in 1..]); it stops at the latest after one level per applied change, the
    model runs it with that much fuel (plus one) and answers [Err] beyond: every rejected level
    names a different actor that owns an applied change. *)
@@ -73,9 +75,9 @@ Fixpoint isolate_actor (fuel : nat) (appl : list change) (hs : list N) (a : acto
   | O => Err
   | S f =>
     let ai := level_actor a i in
-    let mo := max_op_for_actor appl ai in
-    if (mo =? 0) || (mo <=? clock_at_get appl hs ai)
-    then Ok (ai, seq_for_actor appl ai + 1)
+    let n := seq_for_actor appl ai in
+    if (n =? 0) || (seq_clock_at appl hs ai =? n)
+    then Ok (ai, n + 1)
     else isolate_actor f appl hs a (i + 1)
   end.
 
